@@ -239,22 +239,44 @@ func runC11(c *Ctx) {
 			_, isD := in.(*ssa.Defer)
 			return isD && callTo(done)(in)
 		})) == 1, c.nm(fwd)+" | defer sub.wg.Done()", c.P.Pos(fwd.Pos()), "Done deferred", "the forwarder no longer signals its WaitGroup on exit (cancel would hang)")
-		// fan-out covers every registered subscriber
-		all := c.fn(fnNotifyAll)
-		var starts []start
-		ir.Instrs(all, func(in ssa.Instruction) {
-			if n, ok := in.(*ssa.Next); ok {
-				if r, ok := n.Iter.(*ssa.Range); ok && loadsField(sm("subscribers"))(r.X) {
-					starts = append(starts, afterInstr(c, in))
-				}
+		c.fanOutAll()
+	})
+}
+
+// fanOutAll: notifySubscribers delivers every event to every registered
+// subscriber; no per-subscriber filter state exists.
+func (c *Ctx) fanOutAll() {
+	sm := func(f string) *types.Var { return c.field("blockntfns", "SubscriptionManager", f) }
+	smM := func(m string) *types.Func { return c.method("blockntfns", "SubscriptionManager", m) }
+	ns := func(f string) *types.Var { return c.field("blockntfns", "newSubscription", f) }
+	// fan-out covers every registered subscriber: from each element of the
+	// range over m.subscribers the notifySubscriber call is reached within
+	// the iteration (no subscriber is skipped), with that subscriber and the
+	// event that was received
+	all := c.fn(fnNotifyAll)
+	var starts []start
+	ir.Instrs(all, func(in ssa.Instruction) {
+		n, ok := in.(*ssa.Next)
+		if !ok {
+			return
+		}
+		r, ok := n.Iter.(*ssa.Range)
+		if !ok || !loadsField(sm("subscribers"))(r.X) {
+			return
+		}
+		for _, ex := range ir.Result(n, 0) {
+			for _, br := range ir.TrueBranches(ex) {
+				starts = append(starts, atEdge(c, br.Edge(), "next subscriber at "+c.at(in)))
 			}
-		})
-		okNext := len(starts) == 1
-		if okNext {
-			// from the "has element" edge of the range
-			c.verdict(len(find(all, callTo(smM("notifySubscriber")))) == 1, c.nm(all)+" | every registered subscriber is notified", c.P.Pos(all.Pos()), "range over m.subscribers calling notifySubscriber", "notifySubscribers no longer notifies each subscriber")
-		} else {
-			c.fail(c.nm(all)+" | every registered subscriber is notified", c.P.Pos(all.Pos()), "notifySubscribers does not range over m.subscribers")
 		}
 	})
+	c.mustFollowIter(all, "each registered subscriber", starts, callTo(smM("notifySubscriber")), "m.notifySubscriber(subscriber, ntfn)", nil, 1)
+	okArgs := false
+	for _, call := range find(all, callTo(smM("notifySubscriber"))) {
+		a := ir.CallOf(call).Args
+		fromRange := ir.DerivesFrom(a[1], func(x ssa.Value) bool { _, ok := x.(*ssa.Next); return ok })
+		okArgs = fromRange && a[2] == ssa.Value(all.Params[1])
+	}
+	c.verdict(okArgs, c.nm(all)+" | each subscriber gets the event that was received", c.P.Pos(all.Pos()), "notifySubscriber(range element, ntfn)", "the fan-out does not pass the ranged subscriber and the received event")
+	c.whoMay("store to newSubscription.bestHeight", storeToField(ns("bestHeight")), []string{fnNewSub}, 1)
 }
